@@ -235,8 +235,9 @@ func init() {
 		ID:        "C05",
 		Technique: "static analysis: consistency rules over the iterator family on canonical forms - mask polarity, valid/invalid duality, path-exhaustive reset completeness against the steppers' mod-set, vector-axis addressing, digest dependence of the stride key, mirror comparison of the two odometers",
 		Explain: "Decides consistency of the iterator family, not its arithmetic: (I1) NextValidity reports !mask[i], NextValid stops on unmasked and NextInvalid on masked elements, in FlatMaskedIterator and MultIterator; (I2) NextValid and NextInvalid of one type are identical up to exactly that polarity; (I3) every path through FlatIterator.Reset rewrites every field the stepping functions mutate (done, nextIndex, track); (I4) the vector fast path addresses track/shape/strides through veclikeDim, which is the first axis of length != 1, and no vector arm uses a literal axis; (I5) the multi-iterator's stride-block key is the digest of all stride elements; (I6) colMajorNDNext is ndNext with loop direction and done-axis reversed. " +
-			"Not decided - and this is the core of the property: that the odometer yields offsets in row-major coordinate order, the skip counts, coordinate tracking values. Round 7: (I11) every loop over the multi-iterator's blocks that steps/rewinds them treats all blocks on every iteration; (L0) AP.IsVectorLike - which selects the unit-step fast path - is 'vector-like shape and all strides one'. Round 11: (I15) every path that moves on from the last axis of an odometer walk has set done; (I14) every path that writes the direction flag rewinds; (I16) the direction setters of all iterator types write their own flag and rewind their own state. Round 13: (T7) the inverse shortcut of Dense.T composes the saved and the requested permutation; (IM) a masked tensor always gets a masked iterator.",
+			"Not decided - and this is the core of the property: that the odometer yields offsets in row-major coordinate order, the skip counts, coordinate tracking values. Round 7: (I11) every loop over the multi-iterator's blocks that steps/rewinds them treats all blocks on every iteration; (L0) AP.IsVectorLike - which selects the unit-step fast path - is 'vector-like shape and all strides one'. Round 11: (I15) every path that moves on from the last axis of an odometer walk has set done; (I14) every path that writes the direction flag rewinds; (I16) the direction setters of all iterator types write their own flag and rewind their own state. Round 13: (T7) the inverse shortcut of Dense.T composes the saved and the requested permutation; (IM) a masked tensor always gets a masked iterator. Round 17: (MX) index domains of the multi-iterator: per-tensor tables are never subscripted by a block number, the per-block table never by a tensor number.",
 		Run: func(rc *rules.RC) {
+			rules.MX(rc)
 			rules.IM(rc)
 			rules.T7(rc)
 			rules.I15(rc)
@@ -326,7 +327,7 @@ func init() {
 		ID:        "C04",
 		Technique: "static analysis: layout-guard goals on every whole-tensor writer/copy decided by path enumeration and boolean implication; truth-table check of the layout predicates; SSA storage-provenance and unique-owner analysis of the copying constructors; abstract interpretation of the in-place (unsafe) mode cases",
 		Explain: "Decides: (L0) RequiresIterator/IsMaterializable/IsView are the boolean functions every guard relies on; (L1) every path to a raw whole-buffer access in Memset, Zero, Copy, Materialize, ToMat64 has established that the tensor is not a view / does not require an iterator (iterator-driven variants are used otherwise); (M2/M3) in-place arithmetic through a view runs the iterator kernel paired with the view's own iterator, never a raw kernel on the iterator path; (V1) Clone, Materialize, SafeT allocate the result's storage, copy elements with a copy primitive and share no array/Header/Raw/mask with the source; (O8) and no access-pattern slices either; (S9) Slice/SliceInto build the view over the parent's window. " +
-			"Not decided: that the iterator writes land on the right elements (C05's arithmetic); native-slice conversions' element order. Round 7: (EP) refusals precede effects; IsMaterializable includes tensors that own their memory but have gaps (finding 78). Round 11: (AD) no decision on buffer start addresses in iterator-driven copies; (O13) built patterns own their slices; (NC); (MM) a view's mask is never cut to the view's element count. Round 13: (SA) no self-append is taken for a copy; (SW) Slice and SliceInto cut the same window.",
+			"Not decided: that the iterator writes land on the right elements (C05's arithmetic); native-slice conversions' element order. Round 7: (EP) refusals precede effects; IsMaterializable includes tensors that own their memory but have gaps (finding 78). Round 11: (AD) no decision on buffer start addresses in iterator-driven copies; (O13) built patterns own their slices; (NC); (MM) a view's mask is never cut to the view's element count. Round 13: (SA) no self-append is taken for a copy; (SW) Slice and SliceInto cut the same window. Round 17: (ITW) the iterator-driven fills behind Zero/Memset of a non-contiguous view write only at offsets the iterator returned, in every typed arm.",
 		Run: func(rc *rules.RC) {
 			rules.ITW(rc)
 			rules.SA(rc)
@@ -572,7 +573,7 @@ func init() {
 		ID:        "C19",
 		Technique: "static analysis: interprocedural ownership analysis over go/ssa (origin tracing with fixpoint summaries returns-param / retains / writes / recycles), mod-set of the recycle function, unique-owner rule for pool-managed access patterns",
 		Explain: "A history-quantified property becomes per-site ownership invariants decided over every function: (O1,O2,O3) no exported function recycles, retains or mutates a caller's []int/Shape/[]Slice/[]bool argument, directly or through any chain of callees (summaries by fixpoint; documented sharing is a named exception table); (O6) ReturnTensor stores a zero value into every leaf field of Dense before pooling it; (O7) ReturnTensor inside the library receives only tensors created in that function, or a parameter under the not-the-reuse-tensor guard; (O8) an access pattern (whose shape/strides slices AP.zero and SetShape return to the ints pool) read out of one object is stored elsewhere only as a move or after Clone, no exported function returns such an alias, no local alias is zeroed into the pool; (T2) the lazy-transpose triple is cleared together; (O10) every freeScalar call lies under the newAlloc flag of scalarToHeader/prepDataVS/prepDataSV, so a scalar operand that is a tensor (aliased, not copied) is never zeroed and pooled. If no live object can reach a slice in the free list and no caller slice is kept, written or recycled, no operation history can corrupt through that channel. " +
-			"Not decided: corruption through backing arrays the API documents as shared; use-after-return inside one function (O9) beyond the rules above. Round 7: (PO) publish-last in the pool return functions; (EP) a refused call leaves its receiver and arguments unchanged. Round 11: (P2) no exported read-only operation writes an operand, through any chain of callees; (O13); (AD). Round 13: (SR) no operation returns a second header of an operand as its result; (SA). Round 15: (T1/T2) old and transposeWith are cleared together; (O6p).",
+			"Not decided: corruption through backing arrays the API documents as shared; use-after-return inside one function (O9) beyond the rules above. Round 7: (PO) publish-last in the pool return functions; (EP) a refused call leaves its receiver and arguments unchanged. Round 11: (P2) no exported read-only operation writes an operand, through any chain of callees; (O13); (AD). Round 13: (SR) no operation returns a second header of an operand as its result; (SA). Round 15: (T1/T2) old and transposeWith are cleared together; (O6p). Round 17: (CSF) the clone of a sparse matrix shares no slice or storage field with its source.",
 		Assume: []string{"interface calls resolve to the module's implementing types (CHA restricted to the module)", "flow-insensitive origin tracing through locals and captured variables (over-approximates aliases)"},
 		Run: func(rc *rules.RC) {
 			rules.O6p(rc)
@@ -609,7 +610,7 @@ func init() {
 		ID:        "C07",
 		Technique: "static analysis: abstract interpretation of every option-mode case of the generated engine methods over a symbolic term domain, checked against the mode contract",
 		Explain: "Decides, for each of the generated StdEng arithmetic, comparison, min/max and unary methods (and Clamp) and for every scenario = option mode {safe, unsafe, reuse, incr} x scalar side x result kind x iterator/raw path x {destination distinct, destination aliasing an operand} x {many elements, one element}: which tensor is returned, that its buffer finally holds Op(L,R) of the original operand values in operand order (incr: destination + Op), that no buffer other than the designated destination, fresh tensors and the scalar scratch header is written (M2), and that every buffer is indexed through its own iterator, never a nil or already consumed one (M3). " +
-			"Not decided: that the kernels compute Op (rules K1/K2 of C06/C11/C12 do), that iterators deliver matching coordinates (C05), the hand-written operations' value semantics. Round 11: (RS) raw reshape typestate; (LP) a product's destination comes from handleReuse or is created by the method; (HS) only comparisons and prepReduce waive the destination's element type check; (AD).",
+			"Not decided: that the kernels compute Op (rules K1/K2 of C06/C11/C12 do), that iterators deliver matching coordinates (C05), the hand-written operations' value semantics. Round 11: (RS) raw reshape typestate; (LP) a product's destination comes from handleReuse or is created by the method; (HS) only comparisons and prepReduce waive the destination's element type check; (AD). Round 17: (SP) handleFuncOptsF32 and handleFuncOptsF64 are mirror images (the incr guard of the destination's relabelling).",
 		Assume: []string{"the summaries of E-level dispatch (destination = first non-scalar operand; Incr adds; Recv stores) and of storage.Copy/CopyIter/Fill, which rules K1arms/K2 check against the kernels", "sparse operands (swap) are outside the dense properties"},
 		Run: func(rc *rules.RC) {
 			rules.SP(rc, "C07", 1)
@@ -710,7 +711,7 @@ func init() {
 		ID:        "C17",
 		Technique: "static analysis: type-erased canonical forms of all generated specialisations compared within each family (sibling agreement), and type-token coherence of every arm of every type switch, over the type-checked AST",
 		Explain: "Decides, for every generated per-type function of the module (kernels, typed accessors, native converters) and every arm of every switch over element types: (K1) all specialisations of one template that belong to one type class have the same canonical form after erasing their own element type; (K1arms) the same for the arms of one switch; (K3) every typed accessor, specialised kernel, Dtype/reflect token, BLAS precision letter and type assertion in an arm denotes the arm's label type; (K2) the canonical form of each arithmetic/comparison/unary/min-max kernel equals the operator table's definition for its operation, variant and type class. " +
-			"Not decided: behaviour of the Go operators themselves, accuracy of math routines, and agreement of results after conversion between types (a runtime relation). Round 7: (K4) the arm for type T of one operation's dispatcher equals the arm for T of its sibling operations; (K12) dispatchers do not return successfully in front of the switch; (K3) arms serving several types use no construct specific to one of them. Round 11: (CVI) an IsInf(x, s) branch yields the infinity of sign s. Round 13: (T8) over every transpose kernel including the byte-copying one.",
+			"Not decided: behaviour of the Go operators themselves, accuracy of math routines, and agreement of results after conversion between types (a runtime relation). Round 7: (K4) the arm for type T of one operation's dispatcher equals the arm for T of its sibling operations; (K12) dispatchers do not return successfully in front of the switch; (K3) arms serving several types use no construct specific to one of them. Round 11: (CVI) an IsInf(x, s) branch yields the infinity of sign s. Round 13: (T8) over every transpose kernel including the byte-copying one. Round 17: (ITW) as in C04, for Memset.",
 		Assume: []string{"sibling specialisations are meant to be instances of one template (the genlib2 design)", "a template-wide change that K2's operator table does not cover is not detected by sibling comparison"},
 		Run: func(rc *rules.RC) {
 			rules.ITW(rc)
